@@ -109,16 +109,47 @@ Proof.
   split; [reflexivity|]. cbn -[Z.pow]. unfold aligned_guard. cbn. repeat split; try lia; try discriminate.
 Qed.
 
-(* ---- the class of the finding `memalign`: with align_memory and an alignment below
-   sizeof(void* ) the bounce buffer cannot be allocated and every un-aligned request fails *)
-Lemma small_alignment_refuted_l :
-  let f := [1; 2; 3; 4; 5] in let b := mkSeg 0 [204; 204] in
-  aligned_guard 2 1 (zlen (sg_data b)) /\ 1 < zlen f /\ alloc_fails (2 ^ 2) true = true /\
-  rs_ret (al_pread (2 ^ 2) true f b 1) = -1 /\ zlen (f_pread f (zlen (sg_data b)) 1) = 2.
-Proof. cbv zeta. unfold aligned_guard. repeat split; try (vm_compute; congruence); try reflexivity; cbn; lia. Qed.
+(* the bounce buffer can always be allocated (since the repair of finding F30) *)
+Lemma alloc_ok A am : alloc_fails A am = false.
+Proof.
+  unfold alloc_fails, alloc_alignment. destruct am; [|reflexivity]. cbn [andb].
+  destruct (Z.ltb_spec A 8); apply Z.ltb_ge; lia.
+Qed.
 
-Lemma guard_ex : aligned_guard 9 1000 5000 /\ alloc_fails (2 ^ 9) true = false /\ alloc_fails (2 ^ 2) false = false.
-Proof. unfold aligned_guard. repeat split; try reflexivity; cbn; lia. Qed.
+Lemma al_pread_refines_l k am f b off :
+  aligned_guard k off (zlen (sg_data b)) -> off <= zlen f ->
+  let res := al_pread (2 ^ k) am f b off in
+  let d := f_pread f (zlen (sg_data b)) off in
+  rs_ret res = zlen d /\ rs_bufs res = [overwrite (sg_data b) 0 d] /\
+  rs_files res = [f] /\ Forall (ev_aligned (2 ^ k) am) (rs_trace res).
+Proof. intros G H. exact (al_pread_refines k am f b off G (alloc_ok _ _) H). Qed.
+Lemma al_pwrite_refines_l k am f b off :
+  aligned_guard k off (zlen (sg_data b)) ->
+  let res := al_pwrite (2 ^ k) am f b off in
+  rs_ret res = zlen (sg_data b) /\ rs_bufs res = [sg_data b] /\
+  rs_files res = [f_pwrite f (sg_data b) off] /\ Forall (ev_aligned (2 ^ k) am) (rs_trace res).
+Proof. intros G. exact (al_pwrite_refines k am f b off G (alloc_ok _ _)). Qed.
+Lemma al_preadv_refines_l k am f segs off :
+  aligned_guard k off (sum_len segs) -> off <= zlen f ->
+  let res := al_preadv (2 ^ k) am f segs off in
+  let d := f_pread f (sum_len segs) off in
+  rs_ret res = zlen d /\ rs_bufs res = scatter (map sg_data segs) d /\
+  rs_files res = [f] /\ Forall (ev_aligned (2 ^ k) am) (rs_trace res).
+Proof. intros G H. exact (al_preadv_refines k am f segs off G (alloc_ok _ _) H). Qed.
+Lemma al_pwritev_refines_l k am f segs off :
+  aligned_guard k off (sum_len segs) ->
+  let res := al_pwritev (2 ^ k) am f segs off in
+  rs_ret res = sum_len segs /\ rs_bufs res = map sg_data segs /\
+  rs_files res = [f_pwrite f (gather segs) off] /\ Forall (ev_aligned (2 ^ k) am) (rs_trace res).
+Proof. intros G. exact (al_pwritev_refines k am f segs off G (alloc_ok _ _)). Qed.
+Lemma ops_refine_plain_l2 k am ops f : ops_ok k f ops ->
+  map observe (fst (run_ops (AdAligned (2 ^ k) am) [f] ops)) = fst (ref_run f ops) /\
+  snd (run_ops (AdAligned (2 ^ k) am) [f] ops) = [snd (ref_run f ops)] /\
+  Forall (trace_aligned k am) (fst (run_ops (AdAligned (2 ^ k) am) [f] ops)).
+Proof. exact (ops_refine_plain_l k am (alloc_ok _ _) ops f). Qed.
+
+Lemma guard_ex : aligned_guard 9 1000 5000 /\ aligned_guard 2 1 2 /\ aligned_guard 0 0 1.
+Proof. unfold aligned_guard. repeat split; cbn; lia. Qed.
 
 (* ---- statements about the composites (fs/xfile.cpp) that are NOT proved yet; the model of the
    composites is validated by the correspondence run only.  Logical content of a composite: *)
